@@ -249,4 +249,13 @@ func init() {
 	}
 	// C08's package also contains the C09 test file, which needs the accessor
 	registry["C08"].Units[0].Inject = actorOverlay
+
+	registry["C06"] = &Check{
+		Rule:        "trees of 2-8 actors (depth <= 4; handlers that panic on OnKill / on their own OnKilled), a set-up of 0-8 Watch / Unwatch / Subscribe / Unsubscribe / Loop-job operations, then 1-4 kills (poison or not, from outside or from an actor, through the spawn ref, a clone or a parsed ref, repeated on the same victim, with or without settling in between), spawns in the victim right before / after the kill, late watchers racing the termination; afterwards 5 virtual seconds pass and one event of every type is published. Oracle over the complete trace, the event stream and white-box tables: every descendant of a victim terminated; ActorKilledEvent of an actor after those of all its descendants; one ActorKilledEvent per life, none for survivors; parent and every registered watcher (Watched / Unwatched events before the termination) got exactly one OnKilled, nobody else any; FindActor fails; no event-stream entry; no delivery and no dead letter of events or scheduled messages after the termination; the parent can reuse the name. Non-trivial = a victim with descendants, a notified watcher or a repeated kill. Distinct = hash of the case.",
+		Assumptions: []string{"racing parts (kills without settling, late watchers) sample Go-scheduler interleavings; the oracle holds on every interleaving"},
+		Units: []Unit{
+			{Name: "kill", Pkg: "c06", Run: "^TestC06KillSubtree$", QuickChecks: 6000, ThoroughChecks: 60000, ThoroughShards: 12, CaseFile: true, CrashOracle: "no-crash", Inject: actorOverlay},
+			{Name: "storm", Pkg: "c06", Run: "^TestC06RespawnStorm$", QuickChecks: 60, QuickShards: 4, ThoroughChecks: 600, ThoroughShards: 8, CaseFile: true, CrashOracle: "no-crash", Inject: actorOverlay},
+		},
+	}
 }
